@@ -110,6 +110,8 @@ class Mapping:
         i = self._i("n", key)
         if mode == "B":
             return "zqn%dx" % i
+        if key.startswith("="):
+            return key[1:]                    # a site that asks for one particular actual name
         return self._pick(ADV_NAMES, i, self.salt, lambda x, r: x + str(r))
 
     def value(self, key_value, mode):
@@ -142,7 +144,7 @@ class Mapping:
         ents = []
         for (kind, key), i in self.idx.items():
             if kind == "n":
-                a = self._pick(ADV_NAMES, i, self.salt, lambda x, r: x + str(r))
+                a = key[1:] if key.startswith("=") else self._pick(ADV_NAMES, i, self.salt, lambda x, r: x + str(r))
                 m = "zqn%dx" % i
                 ents.append("(%s, MName %s)" % (cstr(m), cstr(a)))
                 for suf in ("2", "_"):   # the library's derived names: self-join tag, UPDATE..FROM tag
